@@ -564,6 +564,27 @@ impl Rewriter {
         Some(parse_quote!( #f(#l, #r) ))
     }
 
+    // ---- R-destruct: `(a, _, b) = e;`  ->  `{ let (t0, _, t2) = e; a = t0; b = t2; }` --------------
+    fn r_destruct(&mut self, e: &Expr) -> Option<Expr> {
+        let Expr::Assign(a) = e else { return None };
+        let Expr::Tuple(tp) = strip_paren(&a.left) else { return None };
+        let mut pats: Vec<Pat> = vec![];
+        let mut assigns: Vec<Stmt> = vec![];
+        for el in tp.elems.iter() {
+            match el {
+                Expr::Infer(_) => pats.push(parse_quote!(_)),
+                other if is_place(other) => {
+                    let t = self.fresh("t");
+                    pats.push(parse_quote!( #t ));
+                    assigns.push(parse_quote!( #other = #t; ));
+                }
+                _ => return None,
+            }
+        }
+        let rhs = &a.right;
+        Some(parse_quote!({ let ( #(#pats),* ) = #rhs; #(#assigns)* }))
+    }
+
     // ---- R-lit -------------------------------------------------------------------------
     fn r_lit(&mut self, e: &Expr) -> Option<Expr> {
         let Expr::Lit(el) = e else { return None };
@@ -933,6 +954,13 @@ impl VisitMut for Rewriter {
                 return;
             }
         }
+        if self.on("R-destruct") {
+            if let Some(n) = self.r_destruct(e) {
+                self.record("R-destruct", line, e, &n);
+                *e = n;
+                return;
+            }
+        }
         if self.on("R-const") {
             if let Expr::Path(pth) = e {
                 if let Some(id) = pth.path.get_ident() {
@@ -1028,6 +1056,7 @@ pub fn selftest() -> i32 {
         ("{ for &x in position.iter() { sum = sum + x * x } }", &["R-iterref"], "for __vx_k1 in 0 .. position . len () { let x = position [__vx_k1] ; sum = sum + x * x }", &["R-refpat", "R-iterref"]),
         ("{ normal.sample_iter(&mut self.rng).zip(current).map(|(x, eps)| x + *eps).collect() }", &["R-samplezip"], "for __vx_k1 in 0 .. current . len () { let x = normal . sample (& mut self . rng) ; let eps = & current [__vx_k1] ; __vx_out1 . push (x + * eps) ; } let _ = normal . sample (& mut self . rng) ; __vx_out1", &["R-samplezip"]),
         ("{ for _ in 0..n { v.push(r.random()); } }", &["R-wild"], "for __vx_i1 in 0 .. n { v . push (r . random ()) ; }", &["R-wild"]),
+        ("{ (_, m, _, u) = lf(p); }", &["R-destruct"], "{ let (_ , __vx_t1 , _ , __vx_t2) = lf (p) ; m = __vx_t1 ; u = __vx_t2 ; }", &["R-destruct"]),
         // nothing enabled: nothing changes
         ("{ (0..n).for_each(|i| v[i] = 0.5); }", &[], "(0 .. n) . for_each (| i | v [i] = 0.5) ;", &[]),
     ];
